@@ -164,7 +164,15 @@ def do_followup(sb, name, sync=None):
         val = 'EXC:' + type(val).__name__
     exc = sb.exception
     ctx_out = sb._context[-1].output if sb._context else None
-    return {'delta': sb.raw_output[len(before):], 'value': val, 'exception': type(exc).__name__ if exc is not None else None, 'context_output': ctx_out}
+    # the execution record a result proxy points to must be the record of that very execution
+    linked = None
+    if is_sandbox_result(r):
+        try:
+            linked = sb.get_context(r._actual_context_id)[-1].code
+        except Exception as e:
+            linked = 'get_context raised %s' % type(e).__name__
+    return {'delta': sb.raw_output[len(before):], 'value': val, 'exception': type(exc).__name__ if exc is not None else None, 'context_output': ctx_out,
+            'linked_record': linked}
 
 
 def reference_followups(names):
